@@ -385,7 +385,7 @@ func genSecret(t *rapid.T, label string, all []string) secretState {
 		return secretState{}
 	case 1:
 		return secretState{Present: true} // what the Helm chart creates: an empty Secret
-	case 2, 3:
+	case 2:
 		return secretState{Present: true, Keys: append([]string(nil), all...), Extra: rapid.Bool().Draw(t, label+"-extra")}
 	default:
 		var keys []string
@@ -418,7 +418,7 @@ func genScenario(f *clusterFiles, tlsMode string, light bool) *rapid.Generator[s
 		sc.Opts.Port = rapid.SampledFrom([]int32{9443, 443}).Draw(t, "port")
 		sc.Opts.ESS = rapid.Bool().Draw(t, "ess")
 		sc.Opts.ConvCRD = sc.Opts.Webhook && rapid.Bool().Draw(t, "convcrd")
-		sc.Mode = rapid.SampledFrom([]string{"empty", "helm", "partial", "partial", "initialised"}).Draw(t, "mode")
+		sc.Mode = rapid.SampledFrom([]string{"empty", "helm", "partial", "partial", "partial", "partial", "initialised", "initialised"}).Draw(t, "mode")
 		if tlsMode == "full" && sc.Mode != "initialised" {
 			sc.Mode = "partial"
 		}
@@ -908,8 +908,13 @@ func (w *world) checkSafety(ctx string, before, after map[verifsim.Key]verifsim.
 	for _, r := range w.sc.Requested {
 		reqNames[r.Kind+"|"+defaultName(r.Ref.Repo)] = true
 	}
-	for k, b := range before {
-		a := after[k]
+	bkeys := make([]verifsim.Key, 0, len(before))
+	for k := range before {
+		bkeys = append(bkeys, k)
+	}
+	sortKeys(bkeys)
+	for _, k := range bkeys {
+		b, a := before[k], after[k]
 		switch {
 		case k.GK() == gkCRD || k.GK() == gkVWC || k.GK() == gkMWC:
 			if a == nil {
@@ -1561,7 +1566,9 @@ func TestVerifC20Pinned(t *testing.T) {
 			rows[n](&sc)
 			rec.Eval()
 			w := newWorld(sc, f, func(f string, a ...any) { t.Fatalf(f, a...) })
+			w.label(rec)
 			w.runAndCheck(rec)
+			rec.NonTrivial("pinned|"+n, func() any { return sc })
 		})
 	}
 }
